@@ -134,4 +134,23 @@ CLAIMED["C14"] = {
     "technique": "Coq invariant by induction over call sequences + go test -overlay correspondence + implementation-trace predicate",
 }
 
+CLAIMED["C10"] = {
+    "design_ref": "DESIGN.md §4 C10, notes/C10.md",
+    "text": "Coq theorems: BigSize round-trip and accept-iff-minimal; tlv DecodeP2P accepts a byte string exactly when "
+            "it is the canonical concatenation of strictly-increasing records (lengths <= 65535, known records valid) "
+            "and then decode-encode is the identity (with the exact BigSize-length exception characterised); decoder "
+            "total; generic layout laws (round-trip, canonical fixpoint that never grows, byte-exact losslessness for "
+            "exact layouts, 65535-byte bound, framing) instantiated for lnwire layouts. Tied per run by byte-exact "
+            "differential runs of tlv.ReadVarInt/WriteVarInt/Stream.Decode/DecodeP2P/Encode and "
+            "lnwire.ReadMessage/WriteMessage against the model, plus implementation-only predicates (independent "
+            "BOLT-1 parser, fixpoint, size, no panic, bounded time) over all 45 registered message types and 26 onion "
+            "failure codes. Three known findings C10-F1..F3 (Coq _refuted witnesses, replayed on the real code).",
+    "note": "partial: TLV-carrying message types without a Coq layout, allocation/panic/time and zlib are exercised by "
+            "the harness only. lnwire compiles against tlv v1.4.0 from the module cache (no replace), so tlv-tree "
+            "changes are seen only by the tlv-module harness. Trusted: Coq kernel, harnesses, python BOLT-1 parser, "
+            "layouts, on_curve oracle.",
+    "technique": "Coq proof (induction over streams/layouts, accept-iff-canonical equivalence) + differential "
+                 "correspondence + spec predicate on implementation traces",
+}
+
 NOT_CLAIMED = {}
